@@ -551,6 +551,50 @@ def vTrace (share : Bool) (s : VSt) : List Bool → List Bool
   | [] => [vAlive s]
   | a :: rest => vAlive s :: vTrace share (vStep share s a) rest
 
+/-! ### Pipeline-level resilience policies across generations (`Pipeline.reload`)
+
+`Pipeline.reload` creates every filter of the new generation anew (`filters.Create`, then `Init` or
+`Inherit`) and, inside the same loop, calls `InjectResiliencePolicy(p.resilience)` on it with the
+policies built from the NEW spec's `resilience` section. So the policy a filter instance of
+generation g runs under is generation g's. `reuse` is the contrast semantics (seeded change
+C11-m5): a filter whose own spec is unchanged keeps its running instance — and the policy that was
+injected into it. -/
+
+/-- One pipeline spec as far as this matters: the (content of the) filter spec and the parameter of
+the resilience policy the filter's pool names. -/
+structure PGen where
+  filterSpec : Nat
+  policy : Nat
+deriving DecidableEq, Repr
+
+/-- The running filter instance: the spec it was created from and the policy injected into it. -/
+structure PSt where
+  filterSpec : Nat
+  injected : Nat
+deriving DecidableEq, Repr
+
+def pInit (g : PGen) : PSt := ⟨g.filterSpec, g.policy⟩
+
+/-- `new.Inherit(spec, old)`. -/
+def pStep (reuse : Bool) (s : PSt) (g : PGen) : PSt :=
+  if reuse && s.filterSpec == g.filterSpec then s else ⟨g.filterSpec, g.policy⟩
+
+def pRun (reuse : Bool) (s : PSt) : List PGen → PSt
+  | [] => s
+  | g :: rest => pRun reuse (pStep reuse s g) rest
+
+/-- The policy in force after each step of a history (first entry: after `Init`). -/
+def pTrace (reuse : Bool) (s : PSt) : List PGen → List Nat
+  | [] => [s.injected]
+  | g :: rest => s.injected :: pTrace reuse (pStep reuse s g) rest
+
+/-- Backend calls of the `j`-th of the requests sent to a fresh generation whose policy parameter is
+`p`, against a backend that always fails: Retry(maxAttempts = p) ⇒ p calls each;
+CircuitBreaker(minimumNumberOfCalls = p, every call a failure) ⇒ the first p requests reach the
+backend, then the breaker is open. -/
+def policyCalls (isCB : Bool) (p j : Nat) : Nat :=
+  if isCB then (if j < p then 1 else 0) else p
+
 /-! ### Kafka / KafkaMQTT (explicit; `pkg/filters/kafkabackend/kafka.go`, `pkg/filters/kafka/kafka.go`)
 
 Both kinds own a `sarama.AsyncProducer`. `Close()` closes `k.done`; a watcher goroutine then calls
